@@ -17,7 +17,9 @@ Base family (one wrapped symbol S):
                           undefined S)
   bind                    strong | weak   (binding of the definition; for D=undef: of every
                           reference to S and __real_S)
-  out                     exe (non-PIE) | pie
+  out                     exe (non-PIE) | pie | shared (-shared: undefined symbols are allowed and
+                          default-visibility definitions are preemptible, so bindings show as
+                          the NAME the dynamic relocation refers to)
   (D=so with X=A or R=A is not applicable - those sites would live inside liba.so - and dropped.)
 Interaction family (--wrap=S --wrap=T): b.o defines __wrap_S and __wrap_T and refers to S, T
 (and, axis, to __real_S, __real_T); a.o and c.o refer to S and T; D(S) x bind x D(T) in {a.o, c.o,
@@ -54,7 +56,7 @@ WS = [1, 0]
 RS = ["B", "A", "none"]
 XS = ["A", "C", "M", "L"]
 BINDS = ["strong", "weak"]
-OUTS = ["exe", "pie"]
+OUTS = ["exe", "pie", "shared"]
 STYPS = ["func", "object"]
 GCS = ["default", "--gc-sections", "--no-gc-sections"]
 DTS = ["A", "C", "undef"]
@@ -139,19 +141,19 @@ def build_main(anchors):
     o = elfgen.ElfObject("x86_64")
     code = bytearray()
     for _a in anchors:
-        code += b"\x48\x8d\x05\0\0\0\0"
+        code += b"\x48\x8b\x05\0\0\0\0"                # mov anchor@GOTPCREL(%rip), %rax
     code += b"\xc3"
     t = o.section(".text", flags=elfgen.SHF_ALLOC | elfgen.SHF_EXECINSTR, align=16,
                   data=bytes(code))
     o.symbol("_start", section=t, value=0, size=len(code), type=elfgen.STT_FUNC)
     for k, a in enumerate(anchors):
-        o.reloc(t, 7 * k + 3, 2, o.symbol(a), -4)
+        o.reloc(t, 7 * k + 3, 9, o.symbol(a), -4)   # R_X86_64_GOTPCREL
     o.note_gnu_stack()
     return o.to_bytes()
 
 
 def main_asm(anchors):
-    return (".globl _start\n.text\n_start:\n" + "".join(f" lea {a}(%rip), %rax\n" for a in anchors)
+    return (".globl _start\n.text\n_start:\n" + "".join(f" mov {a}@GOTPCREL(%rip), %rax\n" for a in anchors)
             + ' ret\n.section .note.GNU-stack,"",@progbits\n')
 
 
@@ -210,7 +212,7 @@ def plan(m):
     files += [f"lib{r.lower()}.so" if r == "L" else "liba.so" for r in dso]
     if arch:
         files += ["--start-group"] + sorted(arch) + ["--end-group"]
-    flags = [f"--wrap={w}" for w in wraps] + (["-pie"] if out == "pie" else []) + \
+    flags = [f"--wrap={w}" for w in wraps] + ({"pie": ["-pie"], "shared": ["-shared"]}.get(out, [])) + \
             ([gc] if gc != "default" else [])
     return dict(objs=objs, dso=dso, arch=arch, anchors=anchors, files=files, flags=flags,
                 styp=styp, wraps=wraps)
@@ -321,16 +323,14 @@ def observe(path, m):
     p = plan(m)
     if "L" in p["dso"]:
         ent = [s for s in img.e.symbols(".dynsym") if s.name == "S"]
-        if not ent:
-            out["L->S(dynsym of output)"] = "absent"
-        elif ent[0].shndx == elfread.SHN_UNDEF:
-            out["L->S(dynsym of output)"] = "undefined-here"
+        if not ent or ent[0].shndx == elfread.SHN_UNDEF:
+            out["L->S(dynsym of output)"] = "not-defined-here"
         else:
             out["L->S(dynsym of output)"] = show(img._addr_target(ent[0].value))
     return out
 
 
-REF_SCHEMA = "c33-v1"
+REF_SCHEMA = "c33-v2"
 REF_CACHE = os.path.join(vlib.VERIF, ".build", "refcache", "c33")
 USE_CACHE = os.environ.get("VERIF_NO_REFCACHE", "") == ""
 
@@ -400,8 +400,6 @@ def run_member(item):
     res = dict(m=m, viol=[], status="ok", g=None, w=None)
     gv, res["nsub"] = gnu_side(argv, m, d, ldver, USE_CACHE and not keep)
     wrc, wmsg = wildrun.server_link(argv + ["-o", wout], cwd=d)
-    D = m[1]
-    nowrap = ":nowrapdef" if m[0] == "base" and not m[2] else ""
     if "obs_error" in gv:
         res["status"] = "machinery"
         res["msg"] = f"GNU ld output unreadable: {gv['obs_error']}"
@@ -412,7 +410,7 @@ def run_member(item):
     if gv["rc"] != 0:
         res["status"] = "gnu-rejects-wild-accepts"
         res["viol"].append((f"status:gnu-rejects-wild-accepts:gnu-complains-about="
-                            f"{mentioned(gv['msg'])}{nowrap}",
+                            f"{mentioned(gv['msg'])}",
                             f"GNU ld: {gv['msg'][-300:]!r}; wild linked it"))
         try:
             res["w"] = observe(wout, m)
@@ -421,8 +419,8 @@ def run_member(item):
         return res
     if wrc != 0:
         res["status"] = "gnu-accepts-wild-rejects"
-        res["viol"].append((f"status:gnu-accepts-wild-rejects:def={D}:wild-complains-about="
-                            f"{mentioned(wmsg)}{nowrap}:rc={wrc}",
+        res["viol"].append((f"status:gnu-accepts-wild-rejects:wild-complains-about="
+                            f"{mentioned(wmsg)}:rc={wrc}",
                             f"wild: {wmsg[-300:]!r}; GNU ld linked it with bindings {gv['obs']}"))
         res["g"] = gv["obs"]
         return res
@@ -433,10 +431,19 @@ def run_member(item):
         res["viol"].append(("output-malformed", str(ex)))
         return res
     res["g"], res["w"] = g, w
+    weak_refs = (m[0] == "base" and m[1] == "undef" and m[5] == "weak") or \
+                (m[0] == "two" and ((m[1] == "undef" and m[2] == "weak") or m[3] == "undef"))
+    res["weak_policy"] = []
     for site in sorted(set(g) | set(w)):
         gb, wb = g.get(site, "absent"), w.get(site, "absent")
+        if gb == "zero" and wb.startswith("dyn:") and weak_refs:
+            # An unresolved weak reference: GNU ld stores 0 in an executable, wild leaves a
+            # dynamic relocation that finds nothing at load time. That policy is not C33's
+            # business; the name wild looks up is recorded in the coverage.
+            res["weak_policy"].append(f"{site} {wb}")
+            continue
         if gb != wb:
-            res["viol"].append((f"{site_role(site, m)}:def={D}{nowrap}",
+            res["viol"].append((f"{site_role(site, m)}:gnu={gb}:wild={wb}",
                                 f"site {site}: GNU ld binds it to {gb}, wild to {wb}"))
     return res
 
@@ -460,24 +467,33 @@ def family(thorough):
     return fam, na
 
 
-AXES = {"base": {"bind": 5, "out": 6, "type": 7, "gc": 8},
-        "two": {"bind": 2, "out": 5, "type": 6, "gc": 7}}
+AXES = {"base": {"def": 1, "wrapdef": 2, "bind": 5, "out": 6, "type": 7, "gc": 8},
+        "two": {"def": 1, "bind": 2, "tdef": 3, "realrefs": 4, "out": 5, "type": 6, "gc": 7}}
 
 
-def qualify(viols, evaluated):
-    """viols: [(base key, what, m)]. A qualifier `<axis>=<value>` is appended when some sibling
-    member (differing only in that axis) was evaluated and does not show the same base key."""
-    by_key = {}
+def qualify(viols, status):
+    """viols: [(base key, what, m)]; status: {member: status}. Every base key gets ONE final key:
+    for each axis, if the members showing the key take only some of the values that judged members
+    (not rejected by both linkers) of that family take, `:<axis>=<v1|v2..>` is appended. A defect
+    that is uniform along an axis is not split along it; one that needs particular values names
+    them."""
+    allvals = {}
+    for e, st in status.items():
+        if st == "both-reject":
+            continue
+        for axis, idx in AXES[e[0]].items():
+            allvals.setdefault((e[0], axis), set()).add(e[idx])
+    vals = {}
     for key, _what, m in viols:
-        by_key.setdefault(key, set()).add(m)
+        for axis, idx in AXES[m[0]].items():
+            vals.setdefault((key, axis), set()).add(m[idx])
     out = []
     for key, what, m in viols:
         q = []
-        for axis, idx in AXES[m[0]].items():
-            sibs = [e for e in evaluated if e[0] == m[0] and e != m and
-                    all(e[i] == m[i] for i in range(len(m)) if i != idx)]
-            if sibs and any(s not in by_key[key] for s in sibs):
-                q.append(f"{axis}={m[idx]}")
+        for axis in AXES[m[0]]:
+            v = vals[(key, axis)]
+            if v != allvals.get((m[0], axis), v):
+                q.append(f"{axis}=" + "|".join(str(x) for x in sorted(v, key=str)))
         out.append((key + "".join(":" + x for x in q), what, m))
     return out
 
@@ -517,7 +533,7 @@ def replay(chk):
     print("wild bindings  :", res["w"])
     for k, w in res["viol"]:
         print("VIOLATION", k, w)
-    hit = any(doc["key"].startswith(k) for k, _w in res["viol"])
+    hit = any(doc["key"] == k or doc["key"].startswith(k + ":") for k, _w in res["viol"])
     print("REPRODUCED" if hit else "not reproduced")
     sys.exit(1 if hit else 0)
 
@@ -539,6 +555,9 @@ def main():
     binding_values = {}
     samples = []
     viols = []
+    weak_policy = {}
+    per_out = {}
+    status_of = {}
     with vlib.scratch("c33") as base:
         made = set()
         items = []
@@ -557,6 +576,9 @@ def main():
             if res["status"] == "machinery":
                 chk.machinery(f"{res['msg']} on {describe(m)}")
             st = res["status"]
+            status_of[m] = st
+            per_out.setdefault(describe(m)["output"], {}).setdefault(st, 0)
+            per_out[describe(m)["output"]][st] += 1
             if st == "both-reject":
                 stats["both_reject"] += 1
             elif st == "gnu-rejects-wild-accepts":
@@ -578,13 +600,19 @@ def main():
                 outcomes.add(sig)
             for key, what in res["viol"]:
                 viols.append((key, what, m))
+            for wp in res.get("weak_policy", []):
+                weak_policy[wp] = weak_policy.get(wp, 0) + 1
             if len(samples) < 3 and g and len(g) >= 2 and any("__wrap_" in b for b in g.values()) \
                     and (not samples or samples[-1]["family"] != describe(m)["family"]):
                 samples.append(dict(describe(m), command=" ".join(plan(m)["flags"] +
                                                                    plan(m)["files"]),
                                     gnu_ld_bindings=g, wild_bindings=res["w"]))
-        for key, what, m in qualify(viols, set(fam)):
+        for key, what, m in qualify(viols, status_of):
             chk.violation(key, f"{what}; member {describe(m)}", replay_dict(m, argvs[m]))
+    for o, d in per_out.items():
+        if d.get("ok", 0) * 4 < sum(d.values()):
+            chk.machinery(f"output kind {o}: only {d.get('ok', 0)} of {sum(d.values())} members "
+                          f"are accepted by both linkers - the family is vacuous there: {d}")
     if not samples:
         samples.append(describe(fam[0]))
     chk.coverage = {
@@ -598,8 +626,8 @@ def main():
                 "status, GNU ld bindings)",
         "samples": samples,
         "exhaustive": True,
-        "family": "base: 5 def sites x 2 x 3 x 4 ref sites x 2 bindings x 2 outputs (minus "
-                  "not-applicable: D=so with X=A or R=A); two-wraps: 5 x 2 x 3 x 2 x 2 (minus "
+        "family": "base: 5 def sites x 2 x 3 x 4 ref sites x 2 bindings x 3 outputs (minus "
+                  "not-applicable: D=so with X=A or R=A); two-wraps: 5 x 2 x 3 x 2 x 3 (minus "
                   "D=so & T in a.o)" + ("; x {func,object} x {default,--gc-sections,"
                                         "--no-gc-sections}" if chk.thorough else
                                         "; symbol type func, default flags"),
@@ -615,6 +643,8 @@ def main():
         "gnu_rejects_wild_accepts": stats["gnu_rejects_wild_accepts"],
         "gnu_accepts_wild_rejects": stats["gnu_accepts_wild_rejects"],
         "sites_compared": stats["sites_compared"],
+        "status_per_output_kind": per_out,
+        "unresolved_weak_sites_gnu_zero_wild_dynamic_lookup_not_judged": weak_policy,
         "bindings_seen_per_site_in_gnu_ld": {k: sorted(v) for k, v in binding_values.items()},
     }
     chk.assumptions = [
